@@ -12,12 +12,15 @@ def freeze_case(r, stage, ending, intruder=False):
     invA, invB = b.add_invoice(0, amtA), b.add_invoice(1, amtB)
     needA, needB = fee_needed(pol, amtA), fee_needed(pol, amtB)
     # A: one fully funded HTLC, advanced `stage` drain steps (0 = ListState not even processed ... up to pay running / waiting)
-    a_events = [b.htlc(invA, needA, needA, expiry=3000, rel=pol[2] + 10)] + [{"e": "drain_step", "h": 0}] * stage
-    if 8 <= stage < 14:
+    nstage = stage if isinstance(stage, int) else 0
+    a_events = [b.htlc(invA, needA, needA, expiry=3000, rel=pol[2] + 10)] + [{"e": "drain_step", "h": 0}] * nstage
+    stage_label = stage
+    stage = nstage if stage != "height" else "height"
+    if stage != "height" and 8 <= stage < 14:
         a_events += [{"e": "newpart_next", "h": 0}]
-    if 9 <= stage < 14:
+    if stage != "height" and 9 <= stage < 14:
         a_events += [{"e": "payfin_next", "h": 0, "out": "pending"}] + [{"e": "drain_step", "h": 0}] * (stage - 8)
-    if stage >= 14:
+    if stage != "height" and stage >= 14:
         # A's pay has ended and A is frozen in its bookkeeping: mark_failed after a failed pay (stages 14-17),
         # mark_succeeded after a completed one (stages 18-21); k = how many of the bookkeeping steps were still taken
         k = (stage - 14) % 4
@@ -27,6 +30,10 @@ def freeze_case(r, stage, ending, intruder=False):
         else:
             a_events += [{"e": "newpart_next", "h": 0}, {"e": "part_next", "h": 0, "st": "done"}, {"e": "payfin_next", "h": 0, "out": "complete"}]
         a_events += [{"e": "drain_step", "h": 0}] * (1 + k)
+    if stage == "height":
+        # A is complete and about to pay; reading the block height does not return (the watcher is busy): A is frozen at that
+        # await. The model has no such event, so this run is compared with B's solo run only.
+        a_events = [{"e": "freeze_height", "on": True}, b.htlc(invA, needA, needA, expiry=3000, rel=pol[2] + 10)] + [{"e": "drain_step", "h": 0}] * 4
     # stragglers for the frozen hash: further HTLCs of A (some violating the policy, twice) arriving while A is stuck
     for k in range(r.below(4)):
         kind = r.below(4)
@@ -48,7 +55,10 @@ def freeze_case(r, stage, ending, intruder=False):
     for e in pay_ending(r, ending):
         e = dict(e); e["h"] = 1; b_events.append(e)
     b_events += [{"e": "drain", "h": 1}]
-    base = {"cfg": cfg, "invoices": b.invoices, "preimages": b.preimages, "family": "freeze/stage%d/%s" % (stage, ending)}
+    base = {"cfg": cfg, "invoices": b.invoices, "preimages": b.preimages, "family": "freeze/stage%s/%s" % (stage_label, ending)}
+    if stage_label == "height":
+        b_events = b_events + [{"e": "freeze_height", "on": False}, {"e": "drain"}]
+        base["_nocorr"] = True
     both = dict(base, _script=a_events + b_events)
     solo = dict(base, _script=b_events)
     solo_a = dict(base, _script=a_events) if intruder else None
@@ -75,7 +85,7 @@ def b_view(trace, hidx=1):
 def run(tier, seed):
     o = Outcome("C14", tier, seed)
     T = tier == "thorough"
-    o.rule = ("two payment hashes: A is driven to one of 22 stages of its lifecycle (state fetch unanswered ... pay running, waiting on a part, sitting on its timer, each step of mark_failed after a failed pay and of mark_succeeded after a completed one) and frozen there "
+    o.rule = ("two payment hashes: A is driven to one of 23 stages of its lifecycle (state fetch unanswered ... pay running, waiting on a part, sitting on its timer, blocked reading the block height, each step of mark_failed after a failed pay and of mark_succeeded after a completed one) and frozen there "
               "(no RPC of A is processed or delivered) while B runs one of 11 payment stories to completion; the same B script is run alone; B's responses, RPC calls, cancels and node replies "
               "must be identical; in a third of the cases one of B's HTLCs carries A's invoice and A's observations must equal those of A alone. The two-hash trace is also replayed through the product model (correspondence) and all composite monitors. Non-trivial: A has at least one outstanding "
               "RPC or armed timer while B pays; distinct = (stage, story, seed)")
@@ -91,6 +101,8 @@ def run(tier, seed):
         for stage in range(0, 22):
             for ending in (PAY_ENDINGS if T else [PAY_ENDINGS[(stage + i * 4) % len(PAY_ENDINGS)] for i in range(3)]):
                 pairs.append(freeze_case(r.fork(), stage, ending, intruder=(len(pairs) % 3 == 2)))
+        for ending in (PAY_ENDINGS if T else PAY_ENDINGS[:3]):
+            pairs.append(freeze_case(r.fork(), "height", ending))
     try:
         cases = [c for p in pairs for c in p if c is not None]
         keep, verdicts, skewed = run_traces(binary, cases, "C14")
@@ -116,6 +128,7 @@ def run(tier, seed):
         a_busy = any(o_["o"] == "call" and o_.get("h") == 0 for s in tb["steps"] for o_ in s["out"])
         if a_busy and vb[6] >= 1: o.nontrivial.add(both["family"] + json.dumps(tb["events"])[:3000])
         for t, v, tag in ((tb, vb, "two-hash run"), (ts, vs, "solo run")):
+            if both.get("_nocorr") and tag == "two-hash run": continue
             if v[0] or v[2]: o.internal.append("%s of %s: contract violated / simulated node differs" % (tag, both["family"]))
             elif v[1]:
                 o.corr_failures.append(("%s of %s: implementation and model differ at step %d: %s" % (tag, both["family"], v[1], " | ".join(brief(t, v[1])[-2:])[:600]),
